@@ -44,7 +44,7 @@ def universes(chk):
                          out_name="univ.out")
     chk.require_tlc_ok("TyUniverse (Ty.tla)", res)
     out = {}
-    for tag in ("UNIV1", "UNIV2"):
+    for tag in ("UNIV1", "UNIV2", "UNIV3"):
         for u in common.tlc_lines(res.out, tag):
             p = os.path.join(chk.wd, tag.lower() + ".json")
             with open(p, "w") as f:
@@ -100,5 +100,6 @@ def check_laws(chk, laws, which):
     chk.cov["exhaustive"] = True
     chk.cov["rule"] = ("every ordered pair of the universe(s) of Ty.tla (all primitives, weak types, "
                        "nil, void, nominal shapes with a small uid pool, one constructor level; "
-                       "universe 2 = constructors over selected depth-1 types); completeness of "
+                       "universe 2 = constructors over selected depth-1 types, universe 3 = two "
+                       "constructor levels around weak numbers); completeness of "
                        "the table asserted by TLC")
